@@ -59,6 +59,7 @@ BOUNDS = {
     "fracture), 5 model families, fluid/law/gravity variants listed in _configs('quick'), "
     "2 states, every column",
     "thorough": "2-d Cartesian {} {0} {1} {0,1}; 2-d simplex {0} {2} {0,1,2}; 3-d cube {} {0}; "
+    "non-matching unit square {0,1} (flow, mass+energy); "
     "5 families x variants, 4-6 states (2 for poro/thm on the 3-fracture simplex grid), every column",
 }
 MIN_CLASSES = 4
@@ -74,7 +75,7 @@ RUNGS = (1e-3, 1e-2, 1e-4)
 BASE_COST = {"flow": 2.0, "mae": 9.0, "mom": 3.0, "poro": 12.0, "thm": 37.0}
 SIZE = {(2, (), "cart"): 0.5, (2, (0,), "cart"): 1.0, (2, (1,), "cart"): 0.5, (2, (0, 1), "cart"): 1.3,
         (2, (0,), "simplex"): 1.1, (2, (2,), "simplex"): 1.3, (2, (0, 1, 2), "simplex"): 3.0,
-        (3, (), "cart"): 0.4, (3, (0,), "cart"): 0.8}
+        (3, (), "cart"): 0.4, (3, (0,), "cart"): 0.8, (2, (0, 1), "nonmatch"): 2.0}
 TARGET = {"quick": 5.0, "thorough": 40.0}
 
 
@@ -101,6 +102,9 @@ def _configs(tier):
     geoms = [(2, [], "cart"), (2, [0], "cart"), (2, [1], "cart"), (2, [0, 1], "cart"),
              (2, [0], "simplex"), (2, [2], "simplex"), (2, [0, 1, 2], "simplex"),
              (3, [], "cart"), (3, [0], "cart")]
+    for fam in ("flow", "mae"):
+        # non-matching fracture / mortar grids (projections with non-trivial weights)
+        out.append(_cfg(fam, 2, [0, 1], "nonmatch"))
     for fam in G.FAMILIES:
         for dim, fr, grid in geoms:
             has_frac = len(fr) > 0
